@@ -236,3 +236,30 @@ func VxH_C06_badurl() {
 	rest := Tokenize(tail[end:], false)
 	vx.Assert("bad-url-ends-at-unescaped-paren", vxToksEq(toks[1:], rest))
 }
+
+// a full-width escape: "\" + six hexadecimal digits + a space is one identifier made of that
+// code point, or of U+FFFD when it is zero, a surrogate or above U+10FFFF.
+func VxH_C06_escape6() {
+	src := []byte{'\\'}
+	v := 0
+	for i := 0; i < 6; i++ {
+		b := vx.Byte("h" + string(rune('0'+i)))
+		d, ok := vxHexVal(b)
+		vx.Assume(ok)
+		src = append(src, b)
+		v = v*16 + d
+	}
+	src = append(src, ' ')
+	toks := Tokenize(src, false)
+	vx.Reach("tokenized")
+	vx.Assert("one-identifier", len(toks) == 1 && toks[0].Kind() == KIdent)
+	id, _ := toks[0].(Ident)
+	replaced := v == 0 || v > 0x10FFFF || (0xD800 <= v && v <= 0xDFFF)
+	if replaced {
+		vx.Reach("replaced")
+		vx.Assert("replacement-character", id.Value == "�")
+	} else {
+		vx.Reach("kept")
+		vx.Assert("code-point-kept", id.Value == string(rune(v)))
+	}
+}
